@@ -1,4 +1,5 @@
 //! Harness binary for the config/URI cluster (C31, C32, C34, C40).
+mod emit;
 mod json;
 mod uri;
 
@@ -9,6 +10,22 @@ fn main() {
     match raw.get(1).map(|s| s.as_str()) {
         Some("load-json") => {
             json::child_load(&raw[2]);
+            return;
+        }
+        Some("probe-emit") => {
+            vh_common::silence_panics();
+            emit::probe(raw.get(2).and_then(|s| s.parse().ok()).unwrap_or(1), raw.get(3).and_then(|s| s.parse().ok()).unwrap_or(2000));
+            return;
+        }
+        Some("probe-parse") => {
+            use std::io::Read;
+            let mut t = String::new();
+            std::io::stdin().read_to_string(&mut t).unwrap();
+            for block in t.split("\n====\n") {
+                let tree = emmylua_parser::LuaParser::parse(block, emmylua_parser::ParserConfig::default());
+                let errs: Vec<String> = tree.get_errors().iter().map(|e| format!("{}@{:?}", e.message, e.range)).collect();
+                println!("{:?} -> {:?}", block, errs);
+            }
             return;
         }
         Some("probe-load") => {
@@ -24,6 +41,7 @@ fn main() {
     match args.prop.as_str() {
         "C34" => uri::run(&args, &mut report),
         "C31" | "C32" => json::run(&args, &mut report),
+        "C40" => emit::run(&args, &mut report),
         "gen-uri" => {
             std::fs::write(&args.out, serde_json::to_string(&uri::tables()).unwrap()).expect("write tables");
             return;
